@@ -450,6 +450,7 @@ class SCCReader(BaseReader):
         # clear pop_on buffer
         elif word == "94ae":
             self.buffer = self.node_creator_factory.new_creator()
+            self.node_creator_factory.position_tracker.reset()
 
         # display pop_on buffer [End Of Caption]
         elif word == "942f":
